@@ -370,7 +370,15 @@ static void run_random(Exec& ex, vj::Rng& r, unsigned ops) {
     // the initial padding granule), optionally followed by a few small allocations (which open a second block), then a
     // soft or hard reset and a small allocation - the reset has to account for a block that never had a free granule.
     size_t k = 1 + r.below(4);
-    ex.do_alloc(size_t(ex.o.block) * k - (ex.o.nopad ? 0 : ex.o.gran));
+    size_t full = size_t(ex.o.block) * k - (ex.o.nopad ? 0 : ex.o.gran);
+    if (r.chance(1, 2)) ex.do_alloc(full);
+    else {
+      // two spans fill the block to its last granule; the upper one is released and requested again: it must be re-used
+      size_t a = (full / 2) & ~size_t(ex.o.gran - 1);
+      ex.do_alloc(a);
+      ex.do_alloc(full - a);
+      if (ex.live.size() == 2) { ex.do_release(1); ex.do_alloc(full - a); }
+    }
     for (unsigned j = (unsigned)r.below(3); j > 0; j--) ex.do_alloc(random_size(r, ex.o) % (4 * ex.o.gran) + 1);
     if (r.chance(1, 3) && !ex.live.empty()) ex.do_release(0);
     ex.do_reset(r.chance(1, 4));
